@@ -485,6 +485,60 @@ Example well_locked_m_example :
     [Acq "ctl" W; Rd "f"; Acq "mu" W; Wr "f"; Rel "mu" W; Rel "ctl" W] = true.
 Proof. reflexivity. Qed.
 
+(** * Race freedom with never-written fields *)
+
+Theorem well_locked_ro_race_free : well_locked_ro_race_free_statement.
+Proof.
+  intros guards ro progs HF s Hr Hrace.
+  pose (P := fun h p => well_locked_ro guards ro h p = true).
+  assert (Hinv : inv P s).
+  { apply inv_reachable with (progs := progs); try assumption; unfold P; simpl.
+    - intros h l m r H; exact H.
+    - intros h l m r H; apply andb_true_iff in H; exact H.
+    - intros h f r H; apply andb_true_iff in H; apply H.
+    - intros h f r H; apply andb_true_iff in H; apply H. }
+  destruct Hrace as (pre & t1 & mid & t2 & post & f & w1 & w2 & Hth & Hn1 & Hn2 & Hw).
+  destruct (inv_two P s pre t1 mid t2 post Hinv Hth) as (h1 & h2 & HP1 & HP2 & Hex).
+  unfold P in HP1, HP2.
+  assert (A1 : if w1 then ro f = false /\ guards f <> [] /\
+                            (forall g, In g (guards f) -> 1 <= cnt (g, W) h1)
+               else ro f = true \/
+                    exists g, In g (guards f) /\ 1 <= cnt (g, W) h1 + cnt (g, R) h1).
+  { unfold next_access in Hn1. destruct (rest t1) as [|[| | |] r]; try discriminate;
+      inversion Hn1; subst; simpl in HP1; apply andb_true_iff in HP1 as [HP1 _].
+    - apply orb_true_iff in HP1 as [HP1|HP1]; [left; exact HP1|right].
+      apply existsb_holds_cnt; assumption.
+    - apply andb_true_iff in HP1 as [Hro HP1]. split.
+      + destruct (ro f); [discriminate|reflexivity].
+      + apply write_guards_cnt. destruct (guards f); [discriminate|exact HP1]. }
+  assert (A2 : if w2 then ro f = false /\ guards f <> [] /\
+                            (forall g, In g (guards f) -> 1 <= cnt (g, W) h2)
+               else ro f = true \/
+                    exists g, In g (guards f) /\ 1 <= cnt (g, W) h2 + cnt (g, R) h2).
+  { unfold next_access in Hn2. destruct (rest t2) as [|[| | |] r]; try discriminate;
+      inversion Hn2; subst; simpl in HP2; apply andb_true_iff in HP2 as [HP2 _].
+    - apply orb_true_iff in HP2 as [HP2|HP2]; [left; exact HP2|right].
+      apply existsb_holds_cnt; assumption.
+    - apply andb_true_iff in HP2 as [Hro HP2]. split.
+      + destruct (ro f); [discriminate|reflexivity].
+      + apply write_guards_cnt. destruct (guards f); [discriminate|exact HP2]. }
+  destruct w1, w2; try discriminate.
+  - destruct A1 as (_ & Hne & A1), A2 as (_ & _ & A2).
+    destruct (guards f) as [|g gs]; [congruence|].
+    destruct (Hex g) as [H _]. apply H. split.
+    + apply A1; left; reflexivity.
+    + specialize (A2 g (or_introl eq_refl)). lia.
+  - destruct A1 as (Hro & _ & A1). destruct A2 as [A2|(g & Hin & A2)]; [congruence|].
+    destruct (Hex g) as [H _]. apply H. split; [apply A1; assumption|assumption].
+  - destruct A2 as (Hro & _ & A2). destruct A1 as [A1|(g & Hin & A1)]; [congruence|].
+    destruct (Hex g) as [_ H]. apply H. split; [apply A2; assumption|assumption].
+Qed.
+
+Example well_locked_ro_example :
+  well_locked_ro (fun _ => ["mu"]) (fun f => String.eqb f "const") []
+    [Rd "const"; Acq "mu" W; Wr "f"; Rd "const"; Rel "mu" W] = true.
+Proof. reflexivity. Qed.
+
 (** * Deadlock freedom *)
 
 Lemma ranked_nil_held : forall rank h, ranked rank h [] = true -> h = [].
